@@ -77,12 +77,14 @@ template <class G> struct C10 {
     bool eq = vf::bits_equal(got, own);
     if (eq) R.count("bit_identical_to_owning");
     else R.count("not_bit_identical_to_owning");
-    ref::Real d = eq ? 0 : (ref::Real)(got - own).cwiseAbs().maxCoeff() / std::max((ref::Real)1, (ref::Real)own.cwiseAbs().maxCoeff());
+    ref::Real d = eq ? 0 : (ref::Real)vf::maxabs((got - own)) / std::max((ref::Real)1, (ref::Real)vf::maxabs(own));
     if (!(d == d)) d = INFINITY;
     ++R.transitions;
     std::string k = std::string(op) + "/" + cur;
-    if (!R.judge("view_result_equals_owning_result", d, B::B1, k))
-      R.fail("view_result_equals_owning_result", k, d, B::B1, "{" + vf::kv("view", vf::decmat(got)) + "," + vf::kv("owning", vf::decmat(own)) + "}");
+    // the bar belongs to the scalar type of the RESULT (cast<double>() of a float view is judged at double precision)
+    const double bar1 = (double)vf::Bars<typename A::Scalar>::B1;
+    if (!R.judge("view_result_equals_owning_result", d, bar1, k))
+      R.fail("view_result_equals_owning_result", k, d, bar1, "{" + vf::kv("view", vf::decmat(got)) + "," + vf::kv("owning", vf::decmat(own)) + "}");
   }
   void expect(bool ok, const char* check, const char* op) {
     ++R.transitions;
